@@ -178,8 +178,16 @@ def gen_world(rng):
         used = {strip_plus(i) for e in entries for x in e["l"] for i in ids_of(x)}
         expr_n = rng.pick(G.VALID)
         holder_n, holder_r = "2017 Nested Holder", "2018 Root Holder"
-        mode = rng.pick(["closest", "closest", "override"])
-        if mode == "closest":
+        mode = rng.pick(["closest", "closest", "override", "closest-split"])
+        nested_table = {"path": "**", "precedence": "closest", "SPDX-FileCopyrightText": holder_n, "SPDX-License-Identifier": expr_n}
+        if mode == "closest-split":
+            # the nearer file provides only the licence; the copyright has to come from the root file
+            del nested_table["SPDX-FileCopyrightText"]
+            tables.append({"path": f"{D}/**", "precedence": "closest", "SPDX-FileCopyrightText": holder_r, "SPDX-License-Identifier": expr_n})
+            for nm in rng.sample(["n1.c", "n2.py", "deep/n3.c"], rng.randint(1, 3)):
+                files.append({"path": f"{D}/{nm}", "content": "nested content\n"})
+                entries.append({"path": f"{D}/{nm}", "kind": "nested-closest", "c": [holder_r], "l": [expr_n], "reads": f"{D}/{nm}"})
+        elif mode == "closest":
             spare = [x for x in G.VALID if x not in used and x != expr_n]
             expr_r = rng.pick(spare) if spare else expr_n
             tables.append({"path": f"{D}/**", "precedence": "closest", "SPDX-FileCopyrightText": holder_r, "SPDX-License-Identifier": expr_r})
@@ -192,8 +200,7 @@ def gen_world(rng):
             for nm in rng.sample(["n1.c", "n2.py", "deep/n3.c"], rng.randint(1, 3)):
                 files.append({"path": f"{D}/{nm}", "content": "nested content\n"})
                 entries.append({"path": f"{D}/{nm}", "kind": "nested-override", "c": [holder_r], "l": [expr_r], "reads": None, "shadowed": f"{D}/{nm}"})
-        files.append({"path": f"{D}/REUSE.toml", "content": G.reuse_toml([{"path": "**", "precedence": "closest", "SPDX-FileCopyrightText": holder_n,
-                                                                            "SPDX-License-Identifier": expr_n}])})
+        files.append({"path": f"{D}/REUSE.toml", "content": G.reuse_toml([nested_table])})
     if tables:
         files.append({"path": "REUSE.toml", "content": G.reuse_toml(tables)})
     if paras:
